@@ -13,6 +13,7 @@ pub mod c06;
 pub mod c07;
 pub mod c09;
 pub mod c10;
+pub mod c11;
 pub mod c13;
 pub mod c15;
 pub mod c16;
@@ -37,6 +38,7 @@ pub fn run(ctx: &Ctx) -> bool {
         "C07" => c07::run(ctx),
         "C09" => c09::run(ctx),
         "C10" => c10::run(ctx),
+        "C11" => c11::run(ctx),
         "C13" => c13::run(ctx),
         "C15" => c15::run(ctx),
         "C16" => c16::run(ctx),
@@ -58,6 +60,7 @@ pub fn replay(ctx: &Ctx, id: &str, kind: &str, case: &J) -> Vec<Fail> {
         "C07" => c07::replay(ctx, kind, case),
         "C09" => c09::replay(ctx, kind, case),
         "C10" => c10::replay(ctx, kind, case),
+        "C11" => c11::replay(ctx, kind, case),
         "C13" => c13::replay(ctx, kind, case),
         "C15" => c15::replay(ctx, kind, case),
         "C16" => c16::replay(ctx, kind, case),
